@@ -24,8 +24,8 @@ LEVEL_TEXT = ("Theorems in Props/C02.v: for every input of the evaluation phase 
               "passing the decision threshold; sq/std are mean/population variance, rq = tp/(tp+fp/2+fn/2) in (0,1], pq = sq*rq, [0,1] ranges, "
               "Dice >= IoU per instance hence sq_dsc >= sq. Calculators, the tp/filter condition and the wiring are re-translated from the AST each "
               "run (GenEq_ResultCalc, GenEq_EvalTP); correspondence on evaluate() and on directly constructed results.")
-LEVEL_NOTE = ("Range/order statements are about exact quotients; each reported double is one IEEE rounding of them (monotone rounding not proved in Coq, "
-              "validated by correspondence). Trusted: Coq kernel, translator, extraction+driver, harness.")
+LEVEL_NOTE = ("Per-instance scores, rq: ranges/order proved for the reported doubles (rnd monotone, Proofs/Rnd64Facts.v); means, std, pq: exact rationals, "
+              "numpy's summation order not modelled (2^-30 tolerance in the correspondence). Trusted: Coq kernel, translator, extraction+driver, harness.")
 TECHNIQUE = "machine-checked proof in Rocq (Coq) + AST re-translation (GenEq) + model/implementation correspondence"
 
 
